@@ -527,6 +527,37 @@ func (e *Exec) binop(fr *Frame, st *State, x *ssa.BinOp) Value {
 				e.assume(st.pc, Implies(And(Le(IntLit(0), a), Lt(IntLit(0), b)), And(Le(IntLit(0), raw2), Le(raw2, a), Lt(Sub(a, raw2), b))))
 			}
 		}
+		// (q + c) * d: hand the solver the distributed form over the very product term q * d it has met before
+		// (multiplication of two variables is opaque to linear reasoning)
+		for k, pr := range [][2]ssa.Value{{x.X, x.Y}, {x.Y, x.X}} {
+			sum, ok := pr[0].(*ssa.BinOp)
+			if !ok || (sum.Op != token.ADD && sum.Op != token.SUB) {
+				continue
+			}
+			cst, isC := sum.Y.(*ssa.Const)
+			if !isC || cst.Value == nil {
+				continue
+			}
+			if _, isC2 := pr[1].(*ssa.Const); isC2 {
+				continue
+			}
+			q := e.term(fr, st, sum.X)
+			c := e.term(fr, st, sum.Y)
+			other := e.term(fr, st, pr[1])
+			sumT := e.term(fr, st, pr[0])
+			var qd *Term
+			if k == 0 {
+				qd = App(SInt, "*", q, other)
+			} else {
+				qd = App(SInt, "*", other, q)
+			}
+			rawK := App(SInt, "*", at, bt)
+			if sum.Op == token.ADD {
+				e.assume(st.pc, Implies(Eq(sumT, Add(q, c)), Eq(rawK, Add(qd, App(SInt, "*", c, other)))))
+			} else {
+				e.assume(st.pc, Implies(Eq(sumT, Sub(q, c)), Eq(rawK, Sub(qd, App(SInt, "*", c, other)))))
+			}
+		}
 		raw := App(SInt, "*", at, bt)
 		e.exactArith(fr, st, x, "mul", x.X, x.Y, at, bt)
 		_, cx := x.X.(*ssa.Const)
